@@ -195,6 +195,23 @@ class Model:
 
         return hook
 
+    def class_attr(self, interp, base, attr, node):
+        """An attribute that is not stored on the model object: a constant assigned in the body of its class or of one of its bases."""
+        dyn = base.get("__class__") if isinstance(base, dict) else None
+        if dyn is None or not hasattr(dyn, "node"):
+            return NotImplemented
+        from .core import try_fold
+        for k in self.prog.mro(dyn):
+            for st in k.node.body:
+                tgt = st.targets[0] if isinstance(st, ast.Assign) and len(st.targets) == 1 else st.target if isinstance(st, ast.AnnAssign) else None
+                if isinstance(tgt, ast.Name) and tgt.id == attr and getattr(st, "value", None) is not None:
+                    if isinstance(st.value, ast.Constant):
+                        return st.value.value
+                    v = try_fold(st.value, self.prog.module_env(k.module.rel))
+                    if v is not None:
+                        return v
+        return NotImplemented
+
     def resolve_helper(self, interp, call, meth):
         # dynamic dispatch: the method is looked up from the class of the object, not from the class whose method is running
         selfobj = interp.env.get("self")
@@ -243,7 +260,7 @@ class Model:
                 if j < 0:
                     raise AnalysisError(f"cell model: missing argument {pname!r} in helper call at line {call.lineno}")
                 env[pname] = interp.ev(defaults[j])
-        sub = Interp(env, call_hook=hook, loop_hook=self.loop_hook())
+        sub = Interp(env, call_hook=hook, loop_hook=self.loop_hook(), attr_hook=self.class_attr)
         sub.trace = interp.trace  # effects of the helper are effects of the caller
         try:
             sub.run(fn.body)
@@ -280,7 +297,7 @@ class Model:
     def run_method(self, finfo, obj, extra_env=None):
         env = {"self": obj, "__cls__": finfo.cls and self.prog.classes[f"{finfo.module.rel}::{finfo.cls.name}"]}
         env.update(extra_env or {})
-        it = Interp(env, call_hook=self.call_hook(), loop_hook=self.loop_hook())
+        it = Interp(env, call_hook=self.call_hook(), loop_hook=self.loop_hook(), attr_hook=self.class_attr)
         try:
             it.run(finfo.node.body)
         except Flow as fl:
@@ -296,7 +313,7 @@ class Model:
         chain = {"residues": residues, "chain_id": "A"}
         env = {"self": {"__biomol__": True}, "chain": chain, "neutraln": neutraln, "neutralc": neutralc,
                "__dist__": dist, "__cls__": None}
-        it = Interp(env, call_hook=self.call_hook(), loop_hook=self.loop_hook())
+        it = Interp(env, call_hook=self.call_hook(), loop_hook=self.loop_hook(), attr_hook=self.class_attr)
         try:
             it.run(fi.node.body)
         except Flow as fl:
@@ -319,7 +336,7 @@ class Model:
         if loop is None:
             raise AnalysisError("update_bonds: the loop that applies the PEPTIDE patch was not found")
         env = {"self": {"__biomol__": True}, U(loop.target): res, "__cls__": None}
-        it = Interp(env, call_hook=self.call_hook(), loop_hook=self.loop_hook())
+        it = Interp(env, call_hook=self.call_hook(), loop_hook=self.loop_hook(), attr_hook=self.class_attr)
         try:
             it.run(loop.body)
         except Flow as fl:
@@ -348,7 +365,7 @@ class Model:
         if loop is None:
             raise AnalysisError("HydrogenRoutines.cleanup: residue loop not found")
         env = {"self": {"__hr__": True}, U(loop.target): res, "__cls__": None}
-        it = Interp(env, call_hook=self.call_hook(), loop_hook=self.loop_hook())
+        it = Interp(env, call_hook=self.call_hook(), loop_hook=self.loop_hook(), attr_hook=self.class_attr)
         try:
             it.run(loop.body)
         except Flow as fl:
